@@ -888,7 +888,9 @@ class Executor:
             # a local the block contract does not declare (the code around the block changed): it has SOME value of the
             # type its first assignment in the function gives it -- arbitrary at block entry
             kinds = []
-            for n_ in ast.walk(cx.fi.node):
+            busy = getattr(self, '_inferring', set())
+            self._inferring = busy | {nm}
+            for n_ in (ast.walk(cx.fi.node) if nm not in busy else []):
                 if isinstance(n_, ast.Assign) and len(n_.targets) == 1 and isinstance(n_.targets[0], ast.Name) \
                         and n_.targets[0].id == nm:
                     if isinstance(n_.value, ast.Constant) and n_.value.value is None:
@@ -901,6 +903,7 @@ class Executor:
                         if isinstance(n_.value, ast.BinOp):
                             kinds.append(INT)
                         continue
+            self._inferring = busy
             base = [t_ for t_ in kinds if t_.kind != 'none']
             if base and all(t_ == base[0] for t_ in base) and base[0].kind in ('int', 'bool', 'str'):
                 ty = T.opt(base[0]) if len(base) < len(kinds) else base[0]
